@@ -1088,8 +1088,8 @@ class Exec:
                 if not self.path.cached(lambda: self.feasible(w)):
                     raise PathEnd()
                 self.st.assume(w)
-        th.havoc_for_call(self, c, recv)
         self.st.ghost["call_args"] = args
+        th.havoc_for_call(self, c, recv)
         post = th.view(self.st.snapshot(), recv)
         res = None
         if ex.kind == "return":
